@@ -22,3 +22,6 @@ for i in range(1, 21):
 json.dump({'comment': 'frozen on the pinned tree by tools/gen_entry_sets.py: exported methods reaching a write / call site of each K4/K5 row, and the number of sites', 'rows': dict(sorted(rules.FREEZE.items()))},
           open(os.path.join(V, 'tables', 'entry_sets.json'), 'w'), indent=1)
 print('rows:', len(rules.FREEZE))
+json.dump({'comment': 'frozen on the pinned tree by tools/gen_entry_sets.py: per crate and callee, the reviewed places where a failing call is tolerated (the caller can still succeed)', 'crates': {k: dict(sorted(v.items())) for k, v in sorted(rules.FREEZE_TOL.items())}},
+          open(os.path.join(V, 'tables', 'tolerated_failures.json'), 'w'), indent=1)
+print('tolerated-failure callees:', sum(len(v) for v in rules.FREEZE_TOL.values()))
